@@ -683,6 +683,27 @@ for rnd_ in range(2):
     if left or len(rest) != 2 or st != 0:
         rep.violation("impl-vs-spec", f"kskm-keymaster keydelete (main()) after 'Yes': status {st}, {len(left)} objects left under the label, {len(rest)} of the other pair", {"kind": "tool-main-keydelete", "report": report[-800:]})
 
+# two HSMs configured, the operator names one (--hsm before the command, as the usage text shows; or after it where the parser accepts that): only that one is touched
+for hsm_name, other in (("m1", "m0"), ("m0", "m1")):
+    for where in ("before",):
+        tok = S.build_token([[{"id": 0, "objs": S.pair("Kboth", PRE[0])}], [{"id": 0, "objs": S.pair("Kboth", PRE[1])}]])
+        cfg_ = ceremony.make_config({"k": ceremony.ksk_def(PRE[2], label="Kelse")}, {"s": {i: {"publish": "k", "sign": "k"} for i in range(1, 10)}},
+                                    hsm={"m0": {"module": "emu:0", "pin": "1234"}, "m1": {"module": "emu:1", "pin": "1234"}})
+        modname = {"m0": "emu:0", "m1": "emu:1"}
+        newkey = NEW[2048][2]
+        tok.keygen_hook = lambda bits, e, _k=newkey: _k
+        st, report = tool_run(["--hsm", hsm_name, "keygen", "--label", "Kmade", "--algorithm", "RSASHA256", "--size", "2048"], tok, cfg_)
+        count("tool-main-named-hsm")
+        placed = {m: sum(1 for s_ in sl for o in s_.objects if o.label == "Kmade") for m, sl in tok.modules.items()}
+        if placed.get(modname[hsm_name]) != 2 or placed.get(modname[other]) != 0:
+            rep.violation("impl-vs-spec", f"kskm-keymaster --hsm {hsm_name} keygen: the new pair was placed {placed} (status {st}); the operator named HSM {hsm_name} ({modname[hsm_name]})",
+                          {"kind": "tool-main-named-hsm", "report": report[-1000:]})
+        st, report = tool_run(["--hsm", hsm_name, "keydelete", "--label", "Kboth"], tok, cfg_, answer="Yes")
+        left = {m: sum(1 for s_ in sl for o in s_.objects if o.label == "Kboth") for m, sl in tok.modules.items()}
+        if left.get(modname[hsm_name]) != 0 or left.get(modname[other]) != 2:
+            rep.violation("impl-vs-spec", f"kskm-keymaster --hsm {hsm_name} keydelete --label Kboth (answer 'Yes'): objects left per HSM {left} (status {st}); "
+                          f"exactly the pair on {hsm_name} ({modname[hsm_name]}) was to be removed", {"kind": "tool-main-named-hsm", "report": report[-1000:]})
+
 ok_build, log = vlib.make(["Checks/C19Check.vo"])
 runner = vlib.CaseRun("C19", "main", "From KV Require Import Base.Prelude Base.Exn Model.Data Model.Token Model.Sign Model.Keymaster Checks.SignCheck Checks.C19Check.",
                       "case", "check", shard=40)
